@@ -452,7 +452,9 @@ def _judge_parse(path, res, exc) -> None:
 
 
 def snapshot_diagram_rule(dr) -> dict:
-    return {"file": str(dr._file_path) if dr._file_path is not None else None, "base": dr._name_relative_to_root, "should_only": bool(dr._should_only_rule)}
+    # a driver that constructed the rule WITHOUT the mode argument says so: the documented default is should-only
+    mode = dr.__dict__.get("_pta_intent_should_only", dr._should_only_rule)
+    return {"file": str(dr._file_path) if dr._file_path is not None else None, "base": dr._name_relative_to_root, "should_only": bool(mode)}
 
 
 def _wrap_diagram_rule():
